@@ -16,6 +16,7 @@ from __future__ import annotations
 import math
 from fractions import Fraction
 
+from gscrib import ParamsDict
 from gscrib.hooks.extrusion_hook import extrusion_hook
 
 from harness import gen
@@ -55,7 +56,10 @@ class Probe:
     def __call__(self, origin, target, params, state):
         self.n += 1
         seen = dict(params)
-        if self.mutate:
+        if self.mutate == "copy":
+            # a hook may return a NEW mapping instead of mutating the one it was given
+            params = ParamsDict({**params, "Q": float(self.n)})
+        elif self.mutate:
             params.update(Q=float(self.n))
         self.calls.append((tuple(origin), tuple(target), seen, dict(params)))
         return params
@@ -69,7 +73,7 @@ def run_case(ctx, col, case):
     half = Fraction(1, 2 * 10 ** dp)
     layer, nozzle, fil = rng.uniform(0.05, 0.6), rng.uniform(0.2, 1.2), rng.choice([1.75, 2.85, 3.0])
     c = nozzle * layer / (math.pi * (fil / 2) ** 2)
-    first = Probe("first", mutate=True)
+    first = Probe("first", mutate=rng.choice([True, "copy", "copy"]))
     last = Probe("last", mutate=False)
     ext = extrusion_hook(layer, nozzle, fil)
     start = tuple(rng.uniform(-20, 20) for _ in range(3))
